@@ -44,6 +44,13 @@ ASSUMPTIONS = {
     ],
 }
 
+COMMON_ASSUMPTIONS = [
+    "runtime monitoring judges only the executions it produced: inputs, histories, scripts and schedules are seeded samples biased to the boundaries the code branches on, except where the evidence says a finite domain was enumerated",
+    "the crate is built from /repo's working tree with the verification hooks on (--cfg fast_tlsh_verif); with the guard off the tree is the original plus unexpanded cfg attributes",
+    "NEON, wasm-simd128 and core::simd back ends and the `unstable` feature cannot be built or executed in this sandbox; CPUs older than this one are represented by static target-feature builds and by Miri's compile-time feature detection",
+    "a clean sanitizer / Miri run is not a proof of memory safety: only executed paths are judged",
+]
+
 EXHAUSTIVE_WHOLE = {"C09": True}
 
 
